@@ -39,6 +39,34 @@ Record python_like (parse_src : str -> option (list top)) : Prop := mkPythonLike
       parse_src (pre ++ a ++ b ++ rest) = None
 }.
 
+(* ------------------------------------------------------------------ vocabulary of the theorems *)
+(* sort key of the hoisting: __future__ imports, other imports, everything else *)
+Definition rank (t : top) : nat := if is_future t then 0 else if is_import t then 1 else 2.
+Definition nonimp (t : top) : bool := negb (is_import t).
+Definition rank_is (k : nat) (t : top) : bool := Nat.eqb (rank t) k.
+
+(* the three-way stable partition the hoisting performs on what follows the docstring *)
+Definition hoist3 (l : list top) : list top :=
+  filter is_future l ++ filter is_plain_import l ++ filter nonimp l.
+
+Definition doc_part (body : list top) : list top := if has_doc body then firstn 1 body else [].
+Definition rest_part (body : list top) : list top := if has_doc body then skipn 1 body else body.
+
+(* statements that are neither imports nor string statements *)
+Definition plain_stmt (t : top) : bool :=
+  match t with TStr _ _ _ => false | TImport _ _ => false | _ => true end.
+
+(* template text without braces *)
+Definition brace_free (s : str) : bool :=
+  forallb (fun c => negb (ascii_eqb c lbrace || ascii_eqb c rbrace)) s.
+
+(* the texts returned for the entries, in mapping order *)
+Definition texts_of (es : list entry) : list str :=
+  map (fun e => match e_res e with Emitted t => t | _ => [] end) es.
+
+(* the two output types for which the emitter call binds *)
+Definition two_types (type_ : str) : Prop := type_ = L "class" \/ type_ = L "argparse".
+
 (* ------------------------------------------------------------------ the input of the property *)
 Inductive route : Type := ViaApi | ViaCli.
 
